@@ -77,6 +77,27 @@ theorem evalList_sim (c : ICtx) : ∀ (es : List Expr) (D : Env),
     simp only [evalList, specList]
     exact Sim.bnd (hev e c D) (fun v => Sim.bnd (evalList_sim c es v.2) (fun r => Sim.ret _ _ _ rfl))
 
+omit hev in
+/-- the evaluation of a named function in the context its reference captured -/
+theorem builtin_call_sim (o : FObj) (b : Builtin) (full : List Seq) (D : Env) :
+    Sim Prod.fst
+      (do IM.flag { focus := b.focusDep && decide (o.fitem ≠ o.flitem) }
+          let r ← IM.lift (b.apF (o.fitem, o.fpos, o.fsize) full)
+          pure (r, D))
+      (SM.lift (b.apF (eraseObj o).focus full)) := by
+  apply Sim.flag_bind
+  intro hfl
+  have hfoc : b.apF (o.fitem, o.fpos, o.fsize) full = b.apF (eraseObj o).focus full := by
+    cases hb : b.focusDep with
+    | false => simp [Builtin.apF, hb]
+    | true =>
+      simp only [Flags.none, Flags.mk.injEq, hb, Bool.true_and, decide_eq_false_iff_not,
+        Decidable.not_not, and_true, true_and] at hfl
+      rw [hfl]
+      cases hli : o.flitem <;> cases full <;> simp [eraseObj, eraseFocus, Builtin.apF, hb, hli]
+  rw [hfoc]
+  exact Sim.map (Sim.lift _) _ (fun _ => rfl)
+
 theorem runBody_sim (c : ICtx) (D : Env) (body : Expr) (binds : List (Nat × Seq)) (env : Option Env) (lex : Env) :
     Sim Prod.fst (runBody cfg ev c D body binds env lex) (sev body { lex := binds ++ lex, item := none }) := by
   unfold runBody
@@ -94,7 +115,7 @@ theorem callFn_sim (c : ICtx) (D : Env) (a : Nat) (args : List Seq) :
       simp only [eraseObj, FObj.nargsOk, FObj.arity, hc, hf, pure_bind]
       by_cases h : args.length = b.arity
       · simp only [h, BEq.rfl, if_true, Option.isSome_none, Bool.false_and, Bool.false_eq_true, if_false]
-        exact Sim.map (Sim.lift _) _ (fun _ => rfl)
+        exact builtin_call_sim o b args D
       · have h' : (b.arity == args.length) = false := by
           simp only [beq_eq_false_iff_ne, ne_eq]; exact fun h2 => h h2.symm
         simp only [h', Bool.false_eq_true, if_false, h]
@@ -112,7 +133,7 @@ theorem callFn_sim (c : ICtx) (D : Env) (a : Nat) (args : List Seq) :
             intro hfl
             simp [Flags.none] at hfl
           · simp only [hq, if_false]
-            exact Sim.map (Sim.lift _) _ (fun _ => rfl)
+            exact builtin_call_sim o b full D
         · simp only [hl, if_false]
           exact Sim.thr _ _
       · have h' : (holes pat == args.length) = false := by
@@ -279,17 +300,17 @@ theorem forLoop_sim (c : ICtx) (x : Nat) (b : Expr) : ∀ (is : Seq) (D : Env) (
     have := forLoop_sim c x b is r.2 (acc ++ r.1)
     simpa only [List.append_assoc] using this
 
-theorem mapLoop_sim (c : ICtx) (b : Expr) : ∀ (is : Seq) (D : Env) (acc : Seq),
-    Sim Prod.fst (mapLoop ev c b D acc is)
-      (specMap sev (eraseCtx c) b is >>= fun rs => pure (acc ++ rs))
-  | [], D, acc => by
+theorem mapLoop_sim (c : ICtx) (b : Expr) (size : Nat) : ∀ (is : Seq) (k : Nat) (D : Env) (acc : Seq),
+    Sim Prod.fst (mapLoop ev c b size k D acc is)
+      (specMap sev (eraseCtx c) b size k is >>= fun rs => pure (acc ++ rs))
+  | [], k, D, acc => by
     simp only [mapLoop, specMap, pure_bind, List.append_nil]
     exact Sim.ret _ _ _ rfl
-  | i :: is, D, acc => by
+  | i :: is, k, D, acc => by
     simp only [mapLoop, specMap, bind_assoc, pure_bind]
     apply Sim.bnd (hev b _ _)
     intro r
-    have := mapLoop_sim c b is r.2 (acc ++ r.1)
+    have := mapLoop_sim c b size is (k + 1) r.2 (acc ++ r.1)
     simpa only [List.append_assoc] using this
 
 theorem hofForEach_sim (c : ICtx) (a : Nat) : ∀ (xs : Seq) (D : Env) (acc : Seq),
@@ -525,6 +546,26 @@ theorem step_sim (e : Expr) (c : ICtx) (D : Env) :
     cases c.item with
     | none => exact Sim.thr _ _
     | some v => exact Sim.ret _ _ _ rfl
+  | posE =>
+    simp only [step, specStep]
+    apply Sim.flag_bind
+    intro hfl
+    simp only [Flags.none, Flags.mk.injEq, decide_eq_false_iff_not, Decidable.not_not, and_true,
+      true_and] at hfl
+    simp only [eraseCtx, ← hfl]
+    cases c.item with
+    | none => exact Sim.thr _ _
+    | some v => exact Sim.ret _ _ _ rfl
+  | lastE =>
+    simp only [step, specStep]
+    apply Sim.flag_bind
+    intro hfl
+    simp only [Flags.none, Flags.mk.injEq, decide_eq_false_iff_not, Decidable.not_not, and_true,
+      true_and] at hfl
+    simp only [eraseCtx, ← hfl]
+    cases c.item with
+    | none => exact Sim.thr _ _
+    | some v => exact Sim.ret _ _ _ rfl
   | add a b => exact evArith_sim ev sev hev _ a b c D
   | sub a b => exact evArith_sim ev sev hev _ a b c D
   | mul a b => exact evArith_sim ev sev hev _ a b c D
@@ -564,6 +605,9 @@ theorem step_sim (e : Expr) (c : ICtx) (D : Env) :
       exact Sim.ret _ _ _ rfl
   | named b =>
     simp only [step, specStep]
+    have hf : ((eraseCtx c).item, (eraseCtx c).pos, (eraseCtx c).size) = eraseFocus c.litem c.pos c.size := by
+      cases h : c.litem <;> simp [eraseCtx, eraseFocus, h]
+    rw [hf]
     apply Sim.bnd (p := id) (Sim.alloc _); intro n
     exact Sim.ret _ _ _ rfl
   | call f args =>
@@ -589,7 +633,7 @@ theorem step_sim (e : Expr) (c : ICtx) (D : Env) :
   | smap a b =>
     simp only [step, specStep]
     apply Sim.bnd (hev a c D); intro xs
-    have := mapLoop_sim ev sev hev c b xs.1 xs.2 []
+    have := mapLoop_sim ev sev hev c b xs.1.length xs.1 1 xs.2 []
     simpa only [List.nil_append, bind_pure] using this
   | forEach s f =>
     simp only [step, specStep]
